@@ -1,3 +1,5 @@
+// NOT REGISTERED in spec.py (see OUTSIDE there): CBMC runs out of memory on this harness even for two arguments.
+// Kept as the starting point for a lighter encoding.
 // C06/H2 — the parallel-move solver behind BaseEmitter::emit_args_assignment:
 // BaseEmitHelper::emit_args_assignment (core/emithelper.cpp) + FuncArgsContext (core/funcargscontext.cpp), driven the way the
 // public API drives them: FuncArgsAssignment::update_func_frame(frame); frame.finalize(); emit_args_assignment(frame, args).
@@ -224,28 +226,3 @@ HARNESS h_shuffle_a64_gp3() { shuffle<Arch::kAArch64, 3, 0>(); }
 HARNESS h_shuffle_a64_gp4() { shuffle<Arch::kAArch64, 4, 0>(); }
 HARNESS h_shuffle_a64_vec4() { shuffle<Arch::kAArch64, 4, 1>(); }
 
-HARNESS h_shuffle_probe() {
-  FuncDetail& fd = g_fd; FuncArgsAssignment& args = g_args; FuncFrame& f = g_frame;
-  fd._call_conv.set_arch(Arch::kX64); fd._arg_count = 2;
-  args._func_detail = &fd; args._sa_reg_id = uint8_t(Reg::kIdBad);
-  fd._args[0][0].init_reg(RegType::kGp32, 0, TypeId::kInt32); fd._args[1][0].init_reg(RegType::kGp32, 1, TypeId::kInt32);
-  args._arg_packs[0][0].init_reg(RegType::kGp32, 1, TypeId::kInt32); args._arg_packs[1][0].init_reg(RegType::kGp32, 0, TypeId::kInt32);
-  f._arch = Arch::kX64; f._sp_reg_id = 4; f._sa_reg_id = uint8_t(Reg::kIdBad);
-  f._natural_stack_alignment = 16; f._min_dynamic_alignment = 32; f._final_stack_alignment = 16;
-  f._save_restore_reg_size[RegGroup::kGp] = 8; f._save_restore_alignment[RegGroup::kGp] = 8;
-  f._save_restore_reg_size[RegGroup::kVec] = 16; f._save_restore_alignment[RegGroup::kVec] = 16;
-  f._preserved_regs[RegGroup::kGp] = (nondet_u32() | (1u << 5)) & ~(1u << 4);
-  f._dirty_regs[RegGroup::kGp] = nondet_u32() | 3;
-  Error e1 = args.update_func_frame(f);
-  V_ASSERT(e1 == Error::kOk, "probe update ok");
-  Error ef = f.finalize();
-  tmach::rtok[0][0] = 1; tmach::rtok[0][1] = 2; tmach::rtyp[0][0] = uint8_t(TypeId::kInt32); tmach::rtyp[0][1] = uint8_t(TypeId::kInt32);
-  tmach::frame = &f;
-  BaseEmitter* em = reinterpret_cast<BaseEmitter*>(emitter_mem);
-  em->_gp_signature = OperandSignature{RegTraits<RegType::kGp64>::kSignature};
-  TokenHelper helper(em);
-  Error e2 = helper.emit_args_assignment(f, args);
-  V_ASSERT(e2 == Error::kOk, "probe emit ok");
-  V_ASSERT(tmach::rtok[0][1] == 1 && tmach::rtok[0][0] == 2, "probe swapped");
-  V_WITNESS("probe-end");
-}
